@@ -184,6 +184,8 @@ def map_type(cxx, typemap):
         base = typemap[words]
     elif words in BASE_TYPEMAP:
         base = BASE_TYPEMAP[words]
+    elif words in typemap.values():
+        base = words          # already a C spelling produced by an earlier pass
     else:
         raise ExtractionBreak('no C binding for C++ type %r' % cxx)
     return const + base + ptr, is_ref
@@ -308,7 +310,7 @@ def parse_fields(toks, a, b, typemap, cls):
                 continue
             val = re.sub(r'\b([A-Za-z_]\w*)\b', lambda m_: (cls + '_' + m_.group(1)) if any(m_.group(1) == st[1] for st in statics) else m_.group(1), val)
             try:
-                cty, _ = map_type(' '.join(tys), typemap)
+                cty, _ = map_type(re.sub(r'\s*::\s*', '::', ' '.join(tys)), typemap)
                 statics.append((cty, decl[eq - 1].t, val))
             except ExtractionBreak:
                 pass
@@ -681,6 +683,9 @@ class Body:
             if t.k == 'id' and t.t == 'nullptr':
                 out.append(T('id', 'NULL')); i += 1; continue
             if t.k == 'id' and t.t == 'constexpr':
+                pq = prev_sig(toks, i)
+                if pq is not None and toks[pq].k == 'id' and toks[pq].t == 'if':
+                    i += 1; continue          # if constexpr (c)  ->  if (c): the condition is a constant either way
                 out.append(T('id', 'const')); i += 1; continue
             if t.k == 'pp':
                 if t.t.startswith('#pragma warning'):
@@ -1132,6 +1137,14 @@ class Body:
                         else:
                             raise ExtractionBreak('no callee binding for %s with %s args (template %s) in %s' % (t.t, len(args), targs, ctx['fn']['cname']))
                     spec = spec[key]
+                if isinstance(spec, list):
+                    # argument-directed binding (overloads told apart by what is passed): [(regex over first argument text, spec)]
+                    a0 = untok(args[0]).strip() if args else ''
+                    for rx, sp in spec:
+                        if re.fullmatch(rx, a0):
+                            spec = sp; break
+                    else:
+                        raise ExtractionBreak('no callee binding for %s with first argument %r in %s' % (t.t, a0, ctx['fn']['cname']))
                 fn = spec['fn']
                 recv = spec.get('recv', 'auto')
                 start = i
@@ -1165,6 +1178,11 @@ class Body:
                         newargs.append(tokenize('&(') + a + tokenize(')'))
                     elif argmode and ai < len(argmode) and argmode[ai] == 'obj':
                         newargs.append(tokenize('&(') + a + tokenize('), sizeof(') + a + tokenize(')'))
+                    elif argmode and ai < len(argmode) and argmode[ai] == 'objtmp':
+                        # R17: a value (possibly a temporary) written through const T&: materialise it, pass address and size
+                        newargs.append(tokenize('OP2_TMP_ADDR(') + a + tokenize('), sizeof(__typeof__(') + a + tokenize('))'))
+                    elif argmode and ai < len(argmode) and argmode[ai] == 'vec':
+                        newargs.append(tokenize('(') + a + tokenize(').data, (') + a + tokenize(').size * sizeof(*(') + a + tokenize(').data)'))
                     else:
                         newargs.append(a)
                 call = [T('id', '@@CALL@@' + fn), T('op', '(')]
@@ -1235,8 +1253,42 @@ class Body:
                         continue
                 elif t.t == ';' and paren == 0:
                     if stmt_has:
-                        out.append(T('id', ' ' + prop_text))
-                        self.fire('R6')
+                        # an assignment  LHS = f(...);  whose call throws must leave LHS untouched (C++ never performs the store)
+                        k = len(out) - 1      # index of ';' in out
+                        st = k - 1
+                        d2 = 0
+                        while st >= 0:
+                            x = out[st]
+                            if x.k == 'op':
+                                if x.t in (')', ']', '}'): d2 += 1
+                                elif x.t in ('(', '[', '{'):
+                                    if d2 == 0: break
+                                    d2 -= 1
+                                elif x.t == ';' and d2 == 0: break
+                            if x.k == 'id' and x.t.lstrip().startswith('if (op2_exc)') and d2 == 0: break
+                            st -= 1
+                        stmt = out[st + 1:k]
+                        ssig = [x for x in stmt if sig(x)]
+                        eqi = None; d3 = 0
+                        for zi, x in enumerate(stmt):
+                            if x.k == 'op':
+                                if x.t in OPEN: d3 += 1
+                                elif x.t in CLOSE: d3 -= 1
+                                elif x.t == '=' and d3 == 0: eqi = zi; break
+                        is_decl = len(ssig) >= 2 and ssig[0].k == 'id' and (ssig[1].k == 'id' or ssig[1].t == '*') and ssig[0].t not in ('return',)
+                        if eqi is not None and not is_decl and ssig and ssig[0].t != 'return':
+                            lhs = untok(strip_ws(stmt[:eqi])); rhs = untok(strip_ws(stmt[eqi + 1:]))
+                            lead = [x for x in stmt[:len(stmt) - len(strip_ws(stmt))]] if False else []
+                            new_stmt = tokenize('{ __typeof__(%s) op2_tmp = %s; %s %s = op2_tmp; }' % (lhs, rhs, prop_text, lhs))
+                            ws0 = []
+                            for x in stmt:
+                                if sig(x): break
+                                ws0.append(x)
+                            out[st + 1:k + 1] = ws0 + new_stmt
+                            self.fire('R6assign')
+                        else:
+                            out.append(T('id', ' ' + prop_text))
+                            self.fire('R6')
                     stmt_has = False
                 elif t.t == '}':
                     if pend_stack and pend_stack[-1] == i:
@@ -1276,7 +1328,7 @@ class Body:
                 if not (toks[w].k == 'id' and toks[w].t == 'while'): raise ExtractionBreak('do without while')
                 skip.add(w)
                 p = next_sig(toks, w); pe = match_fwd(toks, p)
-                real.append(('do', li, pe))      # contract goes after the closing paren of while(...)
+                real.append(('do', li, li))      # CBMC 6.11: the contract of a do-while goes right after the `do` keyword
             else:
                 p = next_sig(toks, li); pe = match_fwd(toks, p)
                 real.append((t.t, li, pe))
